@@ -95,6 +95,8 @@ def deletable(spec):
 
 def _formula_tasks(c):
     out = set()
+    if "ref" in c:
+        return out
     if "op" in c:
         return ref.expr_tasks(c)
     out.update(ref.constraint_tasks(c))
